@@ -453,7 +453,15 @@ func boolp(b bool) int {
 	return 0
 }
 
-func RunStream(em *Emitter, tr int, st *Stream) {
+// Capture records what a stream decoded, batch by batch (C16: concurrent vs alone).
+type Capture struct {
+	Oc  []string
+	Out [][]*Node
+}
+
+func RunStream(em *Emitter, tr int, st *Stream) { RunStreamCapture(em, tr, st, nil) }
+
+func RunStreamCapture(em *Emitter, tr int, st *Stream, capt *Capture) {
 	pool := memory.NewCheckedAllocator(memory.NewGoAllocator())
 	ob := &obsRec{}
 	var p *arrow_record.Producer
@@ -571,6 +579,10 @@ func RunStream(em *Emitter, tr int, st *Stream) {
 		if oc != "ok" || bar == nil {
 			// a refused or crashed encode ends what the round-trip properties speak about
 			healthy = healthy && oc == "error"
+			if capt != nil {
+				capt.Oc = append(capt.Oc, "enc-"+oc)
+				capt.Out = append(capt.Out, []*Node{})
+			}
 			continue
 		}
 		if st.NoDecode {
@@ -647,6 +659,10 @@ func RunStream(em *Emitter, tr int, st *Stream) {
 			}
 		}
 		out, n, doc, dmsg, _ := decode(c, sig, toDecode)
+		if capt != nil {
+			capt.Oc = append(capt.Oc, doc)
+			capt.Out = append(capt.Out, out)
+		}
 		dev := map[string]any{"k": k, "sig": sig, "oc": doc, "err": dmsg, "n": n, "l": faults,
 			"flag": boolp(healthy), "a": boolp(mainPresent), "b": itemCount(in), "x": digestNodes(out), "bid": boolp(tainted)}
 		if doc != "ok" {
